@@ -47,27 +47,42 @@ Proof. exact (conj kind_untouched api_version_untouched). Qed.
 Print Assumptions Gen_kind_untouched.
 
 
-(* For every successful build of a tree whose documents have a `kind` and whose `labels` entries carry no custom
-   `fields`: the outputs are, up to the order chosen by the final sort, in one-to-one positional correspondence
-   with a source list [srcs] whose [Some] entries are EXACTLY the input documents in accumulation order (every
-   input document appears exactly once; the [None] entries are the generated ConfigMaps / Secrets), and every
-   untouched location of an output holds the very node the input held there (tags, styles and text included). *)
+(* For every successful build of a tree whose documents have a `kind`, whose `labels` entries carry no custom
+   `fields` and whose generators create: the outputs are, up to the order chosen by the final sort, obtained from a
+   source list [srcs] - whose [Some] entries are EXACTLY the input documents in accumulation order, the [None]
+   entries being the generated ConfigMaps / Secrets - by DROPPING some positions (IgnoreLocal: resources marked
+   config.kubernetes.io/local-config) and keeping the others in order: every input document appears at most once,
+   and every untouched location of a kept output holds the very node the input held there (tags, styles and text
+   included).  [subrel R l l']: l' is l with some elements dropped, corresponding elements related by R. *)
 Theorem PIPE_build_frame :
   forall nonstr o t outs,
     tree_ok t -> build nonstr o t = Ok outs ->
     exists (srcs : list (option node)) (outs0 : list node),
       Permutation outs outs0 /\ somes srcs = inputs t /\
-      Forall2 (fun s out => match s with
-                            | Some src => forall q, untouched q -> get_at q out = get_at q src
-                            | None => True
-                            end) srcs outs0.
+      subrel (fun s out => match s with
+                           | Some src => forall q, untouched q -> get_at q out = get_at q src
+                           | None => True
+                           end) srcs outs0.
 Proof. exact build_frame. Qed.
 Print Assumptions PIPE_build_frame.
 
+(* ... and when nothing was dropped (as many outputs as sources) every input document appears EXACTLY once *)
+Theorem PIPE_build_frame_exact :
+  forall nonstr o t outs,
+    tree_ok t -> build nonstr o t = Ok outs ->
+    exists (srcs : list (option node)) (outs0 : list node),
+      Permutation outs outs0 /\ somes srcs = inputs t /\
+      (List.length outs = List.length srcs ->
+       Forall2 (fun s out => match s with
+                             | Some src => forall q, untouched q -> get_at q out = get_at q src
+                             | None => True
+                             end) srcs outs0).
+Proof. exact build_frame_exact. Qed.
+Print Assumptions PIPE_build_frame_exact.
 
 Theorem PIPE_identity_count :
   forall nonstr o t outs,
     tree_ok t -> build nonstr o t = Ok outs ->
-    exists srcs : list (option node), List.length outs = List.length srcs /\ somes srcs = inputs t.
+    exists srcs : list (option node), List.length outs <= List.length srcs /\ somes srcs = inputs t.
 Proof. exact build_frame_count. Qed.
 Print Assumptions PIPE_identity_count.
